@@ -176,14 +176,21 @@ func main() {
 		if max < 4+empty {
 			max = 4 + empty
 		}
-		rec := map[string]interface{}{"fn": "trunc", "kind": kind, "sizes": sizes, "empty": empty, "cap": itemCap, "max": max}
+		// limits of 2^32 and more (the type is uint64): everything fits, so for the specification - whose integers are 32 bits -
+		// such a limit is recorded as "a little more than everything"; the real limit goes to the real code
+		realMax := uint64(max)
+		if rng.Intn(8) == 0 {
+			realMax = []uint64{1 << 32, 1<<32 + 3, 1<<32 + uint64(4+empty), 1<<32 + uint64(rng.Intn(total+1)), 1<<33 + 5, 1<<40 + uint64(rng.Intn(1000)), 1 << 63, ^uint64(0), ^uint64(0) - 3}[rng.Intn(9)]
+			max = total + 1
+		}
+		rec := map[string]interface{}{"fn": "trunc", "kind": kind, "sizes": sizes, "empty": empty, "cap": itemCap, "max": max, "realMax": strconv.FormatUint(realMax, 10)}
 		func() {
 			defer func() {
 				if r := recover(); r != nil {
 					rec["kept"], rec["enc"], rec["panic"] = -1, -1, fmt.Sprint(r)
 				}
 			}()
-			m, kept := build(uint64(max))
+			m, kept := build(realMax)
 			b, err := gnet.EncodeMessage(m)
 			if err != nil {
 				panic(err)
